@@ -218,22 +218,40 @@ func (f *FBaseProcessorFunction) SendError(fctx FContext, oprot *FProtocol, kind
 
 func (f *FBaseProcessorFunction) sendError(ctx context.Context, fctx FContext, oprot *FProtocol, kind int32, method, message string) error {
 	err := thrift.NewTApplicationException(kind, message)
-	if werr := oprot.WriteResponseHeader(fctx); werr != nil && IsErrTooLarge(werr) {
-		// The response headers alone exceed the output limit. Without a
-		// header block the client cannot route the reply and the caller is
-		// left to time out: send the error with the headers routing needs.
+	if werr := f.writeError(ctx, fctx, oprot, method, err); werr != nil && IsErrTooLarge(werr) {
+		// The response headers set by the handler leave no room for the
+		// error reply within the output limit. Without a header block the
+		// client cannot route the reply and the caller is left to time out:
+		// send the error with the headers routing needs.
+		if r, ok := oprot.TProtocol.(interface{ Reset() }); ok {
+			r.Reset()
+		}
 		slim := NewFContext(fctx.CorrelationID())
 		if opid, ok := fctx.ResponseHeader(opIDHeader); ok {
 			slim.AddResponseHeader(opIDHeader, opid)
 		}
 		slim.AddResponseHeader(cidHeader, fctx.CorrelationID())
-		oprot.WriteResponseHeader(slim)
+		f.writeError(ctx, slim, oprot, method, err)
 	}
-	oprot.WriteMessageBegin(ctx, method, thrift.EXCEPTION, 0)
-	err.Write(ctx, oprot)
-	oprot.WriteMessageEnd(ctx)
-	oprot.Flush(ctx)
 	return err
+}
+
+// writeError writes an application exception reply and reports the first
+// write that failed.
+func (f *FBaseProcessorFunction) writeError(ctx context.Context, fctx FContext, oprot *FProtocol, method string, ex thrift.TApplicationException) error {
+	if err := oprot.WriteResponseHeader(fctx); err != nil {
+		return err
+	}
+	if err := oprot.WriteMessageBegin(ctx, method, thrift.EXCEPTION, 0); err != nil {
+		return err
+	}
+	if err := ex.Write(ctx, oprot); err != nil {
+		return err
+	}
+	if err := oprot.WriteMessageEnd(ctx); err != nil {
+		return err
+	}
+	return oprot.Flush(ctx)
 }
 
 // SendReply ...
